@@ -46,6 +46,7 @@ func runC08(c *Ctx) {
 	r.Rule("C08.R3", "satisfyTypeAndDirection, tabulated over (offered direction, directions and mids of two candidate transceivers): it returns nil or one of the candidates, and every (offered, candidate direction) pair it accepts is mapped by R1's table into the legal set", 12)
 	r.Rule("C08.R4", "frame: the direction cell is written only by setDirection and read only by Direction(); setDirection is called only from the constructor, Stop, setSendingTrack (application calls), the tabulated loop body and the plan-B placeholder; findByMid returns nil or the element whose Mid() equals the argument; no call after the loop in SetRemoteDescription can reach setDirection", 14)
 	r.Rule("C08.R6", "setSendingTrack (the only application-side writer of a negotiated transceiver's direction between SetRemoteDescription and CreateAnswer), tabulated over (track nil?, current direction): with track == nil the new direction's {send,recv} capabilities are a subset of the old one's; with a track it gains at most send (legal(O) of RFC 3264 §6.1 is downward closed, so a legal answer stays legal)", 8)
+	r.Rule("C08.R7", "isSendAllowed (AddTrack's reuse guard), tabulated over (current direction, recorded remote direction): never true when the recorded remote direction is sendonly or inactive", 12)
 	r.Rule("C08.R5", "every transceiver that takes over a remote m-section in SetRemoteDescription has that section's direction recorded (setCurrentRemoteDirection) before it is given the mid: the record is what AddTrack consults before turning a receive-only answer into a sending one", 1)
 	r.NotCovered = append(r.NotCovered,
 		"direction changes made by the application (AddTrack, RemoveTrack, ReplaceTrack, Stop) between SetRemoteDescription and CreateAnswer",
@@ -154,6 +155,7 @@ func runC08(c *Ctx) {
 	c13DebugDump(c)
 	c08R5(c, "C08.R5")
 	c08R6(c) // c08c.go
+	c08R7(c)
 }
 
 func c08ShortAll(m map[string]bool) []string {
